@@ -11,6 +11,9 @@ func validateRFC4226(code string, secret []byte, counter uint64, digits Digits, 
 }
 
 func validateRFC6287(code string, secret []byte, suite Suite, input OCRAInput) (bool, error) {
+	if suite == nil {
+		return false, ErrInvalidRawSuite
+	}
 	cfg := suite.Config()
 	return validate(code, cfg.Digits, func() (string, error) {
 		return deriveRFC6287(secret, suite, input)
